@@ -547,7 +547,17 @@ Definition cl_done_g (guard : bool) (c : clus) : res (option packet) :=
   else Ok None.
 Definition cl_done := cl_done_g true.
 
-Fixpoint recv_b (fuel : nat) (self : list Z) (st : fstate) (p : packet) : A fstate :=
+(* `clob`: a sub-packet decoded by UnmarshalStream is a WINDOW into the buffer of its container
+   (Chunk.Bytes reslices), so when a fragment group completes, Packet.Add appends the other parts
+   behind the head's payload IN PLACE if the capacity allows, i.e. over the bytes that follow it in
+   the container: bytes of the container that are not decoded yet can change under the walk.  The
+   model takes what the rest of the body looks like after each sub-packet as an oracle
+   (clob step rest); the theorems hold for EVERY oracle that keeps bytes bytes and the length;
+   the correspondence run uses `no_clob` and the harness reports the cases in which the
+   implementation really wrote into its input buffer (they are then judged by the oracle only). *)
+Definition no_clob : nat -> list Z -> list Z := fun _ r => r.
+
+Fixpoint recv_b (clob : nat -> list Z -> list Z) (fuel : nat) (self : list Z) (st : fstate) (p : packet) : A fstate :=
   match fuel with
   | O => lift (Err EFuel)
   | S f =>
@@ -557,18 +567,18 @@ Fixpoint recv_b (fuel : nat) (self : list Z) (st : fstate) (p : packet) : A fsta
     else if fl_bit 6 fl then ret st                                                     (* oneshot *)
     else if (p_id p =? 4) && negb (fl_bit 8 fl) then ret st                             (* SvComplete *)
     else if fl_bit 1 fl then
-      if fl_len fl =? 0 then lift (Err EInvalidCount) else unpack_b f self st (fl_len fl) (p_body p)
+      if fl_len fl =? 0 then lift (Err EInvalidCount) else unpack_b clob f self st (fl_len fl) (p_body p)
     else if fl_bit 0 fl then
       if (p_id p =? 6) || (p_id p =? 3) then ret st
       else if fl_len fl =? 0 then lift (Err EInvalidCount)
-      else if fl_len fl =? 1 then recv_b f self st (with_flags (fl_clear fl) p)
+      else if fl_len fl =? 1 then recv_b clob f self st (with_flags (fl_clear fl) p)
       else
         let g := fl_group fl in
         let go (c : clus) :=
           match cl_add c p with
           | Ok c' =>
             match cl_done c' with
-            | Ok (Some v) => recv_b f self (f_remove g st) v         (* delete(s.frags, g); receive(s, l, v) *)
+            | Ok (Some v) => recv_b clob f self (f_remove g st) v         (* delete(s.frags, g); receive(s, l, v) *)
             | Ok None => ret ((g, c') :: f_remove g st)
             | Err e => lift (Err e)
             | Panic => lift Panic
@@ -583,44 +593,46 @@ Fixpoint recv_b (fuel : nat) (self : list Z) (st : fstate) (p : packet) : A fsta
         end
     else ret st                                                                         (* receiveSingle *)
   end
-with unpack_b (fuel : nat) (self : list Z) (st : fstate) (x : Z) (body : list Z) : A fstate :=
+with unpack_b (clob : nat -> list Z -> list Z) (fuel : nat) (self : list Z) (st : fstate) (x : Z) (body : list Z) : A fstate :=
   match fuel with
   | O => lift (Err EFuel)
   | S f =>
     if x <=? 0 then ret st else
     al '(v, r) <- packet_stream body;
-    al st' <- recv_b f self st v;
-    unpack_b f self st' (x - 1) r
+    al st' <- recv_b clob f self st v;
+    unpack_b clob f self st' (x - 1) (clob f r)
   end.
 
 (* a sequence of Packets handed to receive() one after the other on ONE Session (one per
    connection, or one per Packet of a channel): the state of Session.frags is carried along *)
 Definition recv_fuel (p : packet) : nat := S (S (S (length (p_body p)))).
-Fixpoint recv_packets (self : list Z) (st : fstate) (ps : list packet) : A fstate :=
+Fixpoint recv_packets (clob : nat -> list Z -> list Z) (self : list Z) (st : fstate) (ps : list packet) : A fstate :=
   match ps with
   | [] => ret st
-  | p :: r => al st' <- recv_b (recv_fuel p) self st p; recv_packets self st' r
+  | p :: r => al st' <- recv_b clob (recv_fuel p) self st p; recv_packets clob self st' r
   end.
 
 (* the same with the Packets given as bytes: stream forms one behind the other *)
-Fixpoint recv_stream (fuel : nat) (self : list Z) (st : fstate) (s : list Z) : A fstate :=
+Fixpoint recv_stream (clob : nat -> list Z -> list Z) (fuel : nat) (self : list Z) (st : fstate) (s : list Z) : A fstate :=
   match fuel with
   | O => lift (Err EFuel)
   | S f =>
     if is_nil s then ret st else
     al '(p, r) <- packet_stream s;
-    al st' <- recv_b (recv_fuel p) self st p;
-    recv_stream f self st' r
+    al st' <- recv_b clob (recv_fuel p) self st p;
+    recv_stream clob f self st' r
   end.
-Definition receive_seq (self : list Z) (s : list Z) : A (list Z) :=
-  al st <- recv_stream (S (length s)) self [] s; ret [len st].
+Definition receive_seq_c (clob : nat -> list Z -> list Z) (self : list Z) (s : list Z) : A (list Z) :=
+  al st <- recv_stream clob (S (length s)) self [] s; ret [len st].
+Definition receive_seq := receive_seq_c no_clob.
 
 (* the harness: the input is the stream form of the top packet; then receive(s, l, &p) on the
    Session of device `self` *)
-Definition receive_bytes (self : list Z) (s : list Z) : A (list Z) :=
+Definition receive_bytes_c (clob : nat -> list Z -> list Z) (self : list Z) (s : list Z) : A (list Z) :=
   al '(p, r) <- packet_stream s;
-  al st <- recv_b (recv_fuel p) self [] p;
+  al st <- recv_b clob (recv_fuel p) self [] p;
   ret [len st].
+Definition receive_bytes := receive_bytes_c no_clob.
 
 (* =========================================================================================
    8. Session.JSON (c2/z_no_implant.go): the view an operator gets of a Session.  The text is the
